@@ -47,10 +47,21 @@ func Deserialize(r io.Reader) (*Trie, error) {
 	t := New()
 	br := bufio.NewReader(r) // TODO if it's already a bytereader skip
 
-	parents := []*trieNode{t.root}
-	for len(parents) > 0 {
-		parent := parents[0]
-		parents = parents[1:]
+	// each entry stands for `left` children of node that are still to be read;
+	// the count comes from the input, so it must not be materialized
+	type pendingChildren struct {
+		node *trieNode
+		left uint64
+	}
+	pending := []pendingChildren{{t.root, 1}}
+	for len(pending) > 0 {
+		top := &pending[len(pending)-1]
+		if top.left == 0 {
+			pending = pending[:len(pending)-1]
+			continue
+		}
+		top.left--
+		parent := top.node
 
 		nameLen, err := varint.Read(br)
 		// if err == io.EOF {
@@ -79,8 +90,8 @@ func Deserialize(r io.Reader) (*Trie, error) {
 			return nil, err
 		}
 
-		for i := uint64(0); i < childrenLen; i++ {
-			parents = append([]*trieNode{tn}, parents...)
+		if childrenLen > 0 {
+			pending = append(pending, pendingChildren{tn, childrenLen})
 		}
 	}
 
